@@ -208,6 +208,54 @@ def check_extent(case: typing.Any, ctx: Ctx) -> Info:
     return Info(True, ["extent:" + ("ok" if admissible else "bad")], sample={"inner": layout.type_string(spec), "extent": extent, "inner_max": mx})
 
 
+def _stress_specs() -> st.SearchStrategy:
+    """Shapes that random nesting rarely hits but layout bugs hide in:
+    (1) a member whose *longest* form ends byte-aligned while shorter forms do not, followed by a byte-aligned member;
+    (2) members whose length sets coincide in (min, max, residues mod 32) - the library's approximate set equality - but differ."""
+    sub = st.tuples(st.sampled_from([1, 2, 3, 4, 5, 6, 7, 9, 10, 12, 20]), st.integers(1, 8), st.booleans()).map(
+        lambda t: ["var" if t[2] else "fixed", ["uint", t[0], "sat"], t[1]]
+    )
+    aligned_member = st.one_of(
+        st.just(["struct", []]),
+        st.just(["struct", [["k", ["uint", 8, "sat"]]]]),
+        st.just(["union", [["p", ["uint", 3, "sat"]], ["q", ["uint", 16, "sat"]]]]),
+        st.just(["delim", ["struct", [["k", ["bool"]]]], 1]),
+        st.tuples(st.sampled_from([["struct", []], ["struct", [["k", ["uint", 5, "sat"]]]]]), st.integers(1, 3), st.booleans()).map(
+            lambda t: ["var" if t[2] else "fixed", t[0], t[1]]
+        ),
+    )
+    small = st.sampled_from([["uint", 3, "sat"], ["bool"], ["uint", 8, "sat"], ["int", 13]])
+
+    def padding_case(t: typing.Tuple[typing.Any, typing.Any, typing.Any, typing.Any, bool]) -> typing.Any:
+        pre, a, b, c, nest = t
+        inner = ["struct", ([["z", pre]] if pre is not None else []) + [["a", a], ["b", b], ["c", c]]]
+        if nest:
+            return ["struct", [["lead", ["uint", 3, "sat"]], ["inner", inner], ["tail", ["var", ["uint", 4, "sat"], 3]], ["after", b]]]
+        return inner
+
+    padding = st.tuples(st.one_of(st.none(), small), sub, aligned_member, small, st.booleans()).map(padding_case)
+
+    # colliding pairs: E1[<=n1] vs E2[<=n2] with n1 * |E1| == n2 * |E2|, element lengths multiples of 32 (or of 8 inside composites)
+    def collide_case(t: typing.Tuple[int, int, int, bool, bool]) -> typing.Any:
+        unit, k1, k2, as_union, composite_elems = t
+        w1, w2 = unit * k1, unit * k2  # element widths; capacities k2*m and k1*m give the same maximum
+        m = 2
+
+        def elem(w: int) -> typing.Any:
+            if composite_elems or w > 64:
+                return ["struct", [["e%d" % i, ["uint", 8, "sat"]] for i in range(w // 8)]]
+            return ["uint", w, "sat"]
+
+        f1 = ["var", elem(w1), k2 * m]
+        f2 = ["var", elem(w2), k1 * m]
+        if as_union:
+            return ["union", [["sparse", f1], ["dense", f2]] if w1 > w2 else [["sparse", f2], ["dense", f1]]]
+        return ["struct", [["x", ["union", [["sparse", f1 if w1 > w2 else f2], ["dense", f2 if w1 > w2 else f1]]]], ["y", ["uint", 8, "sat"]]]]
+
+    collide = st.tuples(st.sampled_from([8, 16, 32, 64]), st.integers(1, 4), st.integers(1, 4), st.booleans(), st.booleans()).filter(lambda t: t[1] != t[2]).map(collide_case)
+    return st.one_of(padding, padding, collide)
+
+
 def parts(ctx: Ctx) -> typing.List[Part]:
     api_specs = st.one_of(gt.composites(gt.layout_capacity()), gt.field_types(gt.layout_capacity()))
     text_specs = gt.composites(gt.small_capacity(), max_leaves=8)
@@ -222,4 +270,6 @@ def parts(ctx: Ctx) -> typing.List[Part]:
         Part("text", text_specs, check_text, weight=2, cost=6.0),
         Part("extent", extent_cases, check_extent, weight=1),
         Part("grid", None, check_grid, weight=0, grid=_grid),
+        Part("stress-api", _stress_specs(), check_api, weight=2),
+        Part("stress-text", _stress_specs(), check_text, weight=1, cost=5.0),
     ]
